@@ -173,8 +173,14 @@ int main(int argc, char **argv)
             E.roots.push_back(h);
         }
     }
+    // prepared states in which a merged (re-stamped) event stands in front of an older event of another address
+    for(int x = 0; x < 3; ++x) for(int y = 0; y < 3; ++y) if(x != y) {
+        bfs::Hist h = {(uint16_t)(OP_REC + x), (uint16_t)(OP_REC + y), (uint16_t)OP_TICK, (uint16_t)OP_TICK, (uint16_t)(OP_REC + x)};
+        E.roots.push_back(h);
+        h.push_back((uint16_t)(OP_SEEK + 0)); E.roots.push_back(h);      // and with the older event undone
+    }
     vp::bound("alphabet", "rec(/a:i | /b/long/address:f | /c:c) with old=current value, new=next of a 3-cycle; seek(-1,+1,-2,+3,-25,+25); tick(1s,3s)");
-    vp::bound("roots", "initial + " + std::to_string(E.roots.size()) + " states: k in {17,19,20,21} unmergeable records then 0..k undo steps");
+    vp::bound("roots", "initial + " + std::to_string(E.roots.size()) + " states: k in {17,19,20,21} unmergeable records then 0..k undo steps; 12 states with a merged (re-stamped) event in front of an older event of another address");
     (void)root_depth;
     E.run();
     return vp::finish();
